@@ -150,6 +150,103 @@ theorem pty_contract (size t : Nat) (r0 : Bool) (dr : Nat) (a1 : Bool) (readyAt 
             | false => simp only [Bool.not_false, if_true]; cases rp <;> simp <;> omega
             | true => simp; omega
 
+/-! ### `select_ignore_interrupts` / `poll_ignore_interrupts` (utils.py:130-187): the timed wait restarted after EINTR
+
+`end_time = now + timeout` is fixed on entry (clock at 0 here, so `end_time = T`); a wait that is interrupted by a signal fails with
+EINTR once the handler (cost `h`) has run; the wrapper then waits again for `end_time - now`, or gives up with "nothing ready" if that is
+negative.  `sigs` lists, for each (re)started wait, how long after its start the next signal arrives. -/
+def selII (T : Nat) (ready : Option Nat) (h : Nat) : Nat → List Nat → Bool × Nat
+  | now, [] =>                                   -- no further signal: one plain timed wait for the remaining time
+      match ready with
+      | some r => if r ≤ T then (true, max r now) else (false, T)
+      | none => (false, T)
+  | now, d :: ds =>
+      let wake := now + d
+      let readyFirst := match ready with | some r => decide (r ≤ wake ∧ r ≤ T) | none => false
+      if readyFirst then (true, match ready with | some r => max r now | none => now)
+      else if T ≤ wake then (false, T)           -- the timeout expires before the signal
+      else
+        let now' := wake + h                     -- EINTR after the handler has run
+        if T < now' then (false, now')           -- `timeout < 0`: return "nothing ready"
+        else selII T ready h now' ds
+
+/-- the wrapper keeps the timed-wait contract under any number of signals: it returns no later than the deadline plus one handler run,
+    says "not ready" only at or after the deadline, and says "ready" only when the descriptor is -/
+theorem selII_contract (T : Nat) (ready : Option Nat) (h : Nat) (sigs : List Nat) (now : Nat) (hn : now ≤ T) :
+    (selII T ready h now sigs).2 ≤ T + h ∧
+    ((selII T ready h now sigs).1 = false → T ≤ (selII T ready h now sigs).2) ∧
+    ((selII T ready h now sigs).1 = true → ∃ r, ready = some r ∧ r ≤ (selII T ready h now sigs).2) ∧
+    now ≤ (selII T ready h now sigs).2 := by
+  induction sigs generalizing now with
+  | nil =>
+    unfold selII
+    cases ready with
+    | none => simp; omega
+    | some r =>
+      by_cases hr : r ≤ T
+      · simp only [hr, if_true]; refine ⟨by omega, by simp, ?_, by omega⟩
+        intro _; exact ⟨r, rfl, by omega⟩
+      · simp only [hr, if_false]; refine ⟨by omega, by simp, by simp, by omega⟩
+  | cons d ds ih =>
+    unfold selII
+    simp only
+    cases ready with
+    | none =>
+      simp only [Bool.false_eq_true, if_false]
+      by_cases h1 : T ≤ now + d
+      · simp only [h1, if_true]; refine ⟨by omega, by simp, by simp, by omega⟩
+      · simp only [h1, if_false]
+        by_cases h2 : T < now + d + h
+        · simp only [h2, if_true]; refine ⟨by omega, by intro _; omega, by simp, by omega⟩
+        · simp only [h2, if_false]
+          obtain ⟨a, b, c, e⟩ := ih (now + d + h) (by omega)
+          exact ⟨a, b, c, by omega⟩
+    | some r =>
+      by_cases h0 : r ≤ now + d ∧ r ≤ T
+      · simp only [h0, and_self, decide_true, if_true]
+        refine ⟨by omega, by simp, ?_, by omega⟩
+        intro _; exact ⟨r, rfl, by omega⟩
+      · simp only [h0, decide_false, Bool.false_eq_true, if_false]
+        by_cases h1 : T ≤ now + d
+        · simp only [h1, if_true]; refine ⟨by omega, by simp, by simp, by omega⟩
+        · simp only [h1, if_false]
+          by_cases h2 : T < now + d + h
+          · simp only [h2, if_true]; refine ⟨by omega, by intro _; omega, by simp, by omega⟩
+          · simp only [h2, if_false]
+            obtain ⟨a, b, c, e⟩ := ih (now + d + h) (by omega)
+            exact ⟨a, b, c, by omega⟩
+
+/-- without signals the wrapper is the plain timed wait -/
+theorem selII_no_signals (T : Nat) (ready : Option Nat) (h : Nat) :
+    selII T ready h 0 [] = timedWait (some T) ready := by
+  unfold selII timedWait
+  cases ready with
+  | none => rfl
+  | some r => by_cases hr : r ≤ T <;> simp [hr]
+
+/-- a signal storm cannot keep the call alive: every restart uses what is left of the original timeout -/
+theorem selII_bounded_by_deadline (T : Nat) (ready : Option Nat) (h : Nat) (sigs : List Nat) :
+    (selII T ready h 0 sigs).2 ≤ T + h := (selII_contract T ready h sigs 0 (Nat.zero_le _)).1
+
+/-- fdspawn / pty reads built on the wrapper keep their contract with `d` enlarged by one handler run -/
+def fdReadI (T : Nat) (readyAt : Option Nat) (h : Nat) (sigs : List Nat) (eofAtRead : Bool) (c : Costs) : Out × Nat :=
+  let w := selII T readyAt h 0 sigs
+  if w.1 then (if eofAtRead then .eof else .data, w.2 + c.c1) else (.timeout, w.2)
+
+theorem fd_contract_under_signals (t : Nat) (readyAt : Option Nat) (h : Nat) (sigs : List Nat) (e : Bool) (c : Costs) (d : Nat) (hc : c.le d) :
+    (fdReadI t readyAt h sigs e c).2 ≤ t + h + d ∧ ((fdReadI t readyAt h sigs e c).1 = .timeout → t ≤ (fdReadI t readyAt h sigs e c).2) := by
+  obtain ⟨h1, -⟩ := hc
+  obtain ⟨a, b, -, -⟩ := selII_contract t readyAt h sigs 0 (Nat.zero_le _)
+  unfold fdReadI
+  simp only
+  cases hw : (selII t readyAt h 0 sigs).1 with
+  | true => simp only [if_true]; cases e <;> simp <;> omega
+  | false =>
+    rw [hw] at b
+    have b' := b rfl
+    simp only [Bool.false_eq_true, if_false]
+    exact ⟨by omega, fun _ => b'⟩
+
 /-- the contracts above are instances of `Dl.evOk` with `eps` = the path's non-blocking overhead -/
 theorem fd_evOk (t : Nat) (readyAt : Option Nat) (e : Bool) (c : Costs) (d : Nat) (hc : c.le d) :
     Dl.evOk d (some (t : Int)) ⟨(fdRead (some t) readyAt e c).2,
